@@ -26,12 +26,36 @@ EXTRA_FRAGMENTS = [
 ]
 
 
-def fragments(work, stats, rng, n):
+KIND_FRAGMENTS = []      # indices (into the fragment list) of the per-kind fragments, filled by fragments()
+
+
+def class_hosts(work, stats, rng, n):
+    """spec/Classes.tla graphs (classes, modules, public / private / singleton methods) with their queries: hosts whose
+    statement boundaries lie INSIDE method and class bodies of every visibility"""
+    from . import classes as KL
+    graphs = KL.emit(work, stats)
+    out = []
+    for gi, gr in enumerate(rng.sample(graphs, min(n, len(graphs)))):
+        dl, _ = KL.render(gr, KL.PLAIN)
+        ql, _ = KL.query_lines(gr, KL.PLAIN)
+        out.append(("classes#%d" % gi, "\n".join(dl + ql) + "\n"))
+    return out
+
+
+def fragments(work, stats, rng, n, by_op=True):
     from . import c09, c10, c17
     frs = [list(f) for f in EXTRA_FRAGMENTS]
     cp = c09.emit(work, stats, 3, False, False)
     for p in rng.sample(cp, min(n, len(cp))):
         frs.append([K.stmt_src(st["stmt"], "_vq") for st in p])
+    # one fragment per KIND of Core statement (the shortest behaviour that ends in it), whatever the sample holds
+    per_kind = {}
+    for p in sorted(cp, key=lambda q: (len(q), K.prog_key(q))):
+        per_kind.setdefault(p[-1]["stmt"]["op"] if by_op else K.stmt_short(p[-1]["stmt"]), [K.stmt_src(st["stmt"], "_vq") for st in p])
+    KIND_FRAGMENTS.clear()
+    for kind in sorted(per_kind):
+        KIND_FRAGMENTS.append(len(frs))
+        frs.append(per_kind[kind])
     npg = c10.emit(work, stats, dict(MAXDEPTH=2, MAXIFS=2, ELSIF="FALSE", UNLESS="FALSE", STMT="FALSE", RICH="FALSE"))
     for p in rng.sample(npg, min(n, len(npg))):
         frs.append([l for l in c10.render(p, "_vq")[0] if not l.startswith("dbtp")])
@@ -171,20 +195,24 @@ def run(tier, work):
 
     from . import c10
     cfg = c10.config(work)        # shipped + vf_* methods + narrowing helpers: one configuration for every run
-    frs = fragments(work, stats, rng, 4 if tier == "quick" else 25)
+    frs = fragments(work, stats, rng, 4 if tier == "quick" else 25, by_op=(tier == "quick"))   # thorough: one per called method too
     hosts = [(t, x) for t, x in P.corpus(rng, 45 if tier == "quick" else 585)]
     hosts += [(t, x) for t, x, c in P.generated(work, stats, rng, *((6, 4, 4) if tier == "quick" else (40, 25, 25)))]
+    chosts = class_hosts(work, stats, rng, 4 if tier == "quick" else 30)
+    full = {t for t, _ in chosts}          # hosts that get EVERY boundary x one fragment of every statement kind
+    hosts += chosts
     jobs, meta = [], []
     for tag, text in hosts:
         base_i = len(jobs)
         jobs.append({"cfg": cfg, "files": {"t.rb": text}, "args": ["t.rb", "-i"]})
         meta.append(None)
         rows = insertion_rows(text)
-        if tier == "quick" and len(rows) > 4:
+        if tier == "quick" and len(rows) > 4 and tag not in full:
             rows = sorted(rng.sample(rows, 4))
         lines = text.split("\n")
         for r in rows:
-            for fi in (rng.sample(range(len(frs)), min(len(frs), 3 if tier == "quick" else 8))):
+            for fi in (KIND_FRAGMENTS if tag in full else
+                       rng.sample(range(len(frs)), min(len(frs), 3 if tier == "quick" else 8))):
                 fr = frs[fi]
                 body = lines[:r - 1] + fr + lines[r - 1:]
                 if r > len(lines) - (1 if lines[-1] == "" else 0) and not text.endswith("\n"):
@@ -232,10 +260,10 @@ def run(tier, work):
     v.sample({"fragment": frs[0]})
     v.sample({"fragment": frs[-1]})
     cov = {"states": stats["states"], "transitions": stats["transitions"], "traces_validated_against_impl": compared,
-           "hosts": len(hosts), "fragments": len(frs), "insertions_compared": compared, "seams": seam_info,
+           "hosts": len(hosts), "class_hosts": len(chosts), "fragments": len(frs), "statement_kinds": len(KIND_FRAGMENTS), "insertions_compared": compared, "seams": seam_info,
            "rule": "fragments = behaviours of Core / Narrow / Blocks rendered over fresh names (+4 literal-first templates), "
                    "inserted at statement boundaries that are not last in their body, and appended; hosts = corpus + "
-                   "generated programs; outputs (diagnostics and -i hints) of host rows compared as multisets; "
+                   "generated programs + Classes.tla programs (there: every boundary x one fragment per Core statement kind); outputs (diagnostics and -i hints) of host rows compared as multisets; "
                    "Seams.tla: every (previous statement end, fragment end, next statement start) triple rendered with and "
                    "without the fragment"}
     return v.finish("model_checking", cov, assumptions=[
